@@ -335,7 +335,7 @@ def refurb_cli(
     return p.returncode, p.stdout, p.stderr
 
 
-DIAG_RE = re.compile(r"^(?P<file>.*?):(?P<line>-?\d+):(?P<col>-?\d+) \[(?P<prefix>[A-Z]{3,4})(?P<code>\d{3})\]: (?P<msg>.*)$")
+DIAG_RE = re.compile(r"^(?P<file>.*?):(?P<line>-?\d+):(?P<col>-?\d+) \[(?P<prefix>[A-Z]{3,4})(?P<code>\d+)\]: (?P<msg>.*)$")
 HINT = "Run `refurb --explain ERR` to further explain an error. Use `--quiet` to silence this message"
 
 
